@@ -3,7 +3,7 @@
 import json, os, glob
 V = os.path.dirname(os.path.dirname(os.path.abspath(__file__)))
 rows = {}
-for f in ('MATRIX.tsv', 'MATRIX_round2.tsv', 'MATRIX_round3.tsv', 'MATRIX_round4.tsv', 'MATRIX_round5.tsv', 'MATRIX_all.tsv', 'MATRIX_round6.tsv', 'MATRIX_round7.tsv', 'MATRIX_final_subset.tsv'):
+for f in ('MATRIX.tsv', 'MATRIX_round2.tsv', 'MATRIX_round3.tsv', 'MATRIX_round4.tsv', 'MATRIX_round5.tsv', 'MATRIX_all.tsv', 'MATRIX_round6.tsv', 'MATRIX_round7.tsv', 'MATRIX_final_subset.tsv', 'MATRIX_round8.tsv'):
     p = os.path.join(V, 'seeded', f)
     if os.path.exists(p):
         for line in open(p):
